@@ -5,6 +5,7 @@ import (
 	"math"
 	"reflect"
 	"strconv"
+	"strings"
 
 	"github.com/shopspring/decimal"
 )
@@ -602,6 +603,13 @@ func Equal(left Value, right Value) bool {
 
 // Contains returns true if the haystack Value contains needle.
 func Contains(haystack Value, needle Value) (bool, error) {
+	if sv, ok := haystack.(SafeValue); ok {
+		haystack = sv.Value()
+	}
+	if reflect.ValueOf(haystack).Kind() == reflect.String {
+		// In a string, "in" is the substring test.
+		return strings.Contains(CoerceString(haystack), CoerceString(needle)), nil
+	}
 	res := false
 	_, err := Iterate(haystack, func(k Value, v Value, l Loop) (bool, error) {
 		if Equal(v, needle) {
